@@ -50,8 +50,15 @@
 #include "QXmppVCardManager.h"
 #include "QXmppVersionManager.h"
 
+#include "QXmppE2eeExtension.h"
+#include "QXmppElement.h"
+#include "QXmppFutureUtils_p.h"
+#include "QXmppSaslManager_p.h"
+
+#include <QBuffer>
 #include <QCoreApplication>
 #include <QDomDocument>
+#include <QXmlStreamWriter>
 #include <QSslSocket>
 #include <QTcpServer>
 #include <QTcpSocket>
@@ -68,11 +75,57 @@ static const char *OWN_BARE = "me@example.org";
 static const char *OWN_FULL = "me@example.org/home";
 static const char *OTHER_FULL = "juliet@example.net/balcony";
 
+static const char *NS_E2EE = "urn:example:e2ee";
+class TestClient;
+
+// A stand-in for an end-to-end encryption manager (OMEMO is not built here). "Encryption" is hex: an encrypted IQ is
+//   <iq type from id><encrypted xmlns='urn:example:e2ee'>HEX(children)</encrypted></iq>
+// Like QXmppOmemoManager it is a client extension that claims encrypted IQs, decrypts them and hands them to
+// QXmppClient::injectIq with e2ee metadata; QXmppClient::reply() then sends the answer through encryptIq().
+class DummyE2ee : public QXmppClientExtension, public QXmppE2eeExtension
+{
+public:
+    explicit DummyE2ee(TestClient *c) : c(c) { }
+    bool handleStanza(const QDomElement &el, const std::optional<QXmppE2eeMetadata> &meta) override;
+    QXmppTask<MessageEncryptResult> encryptMessage(QXmppMessage &&, const std::optional<QXmppSendStanzaParams> &) override
+    {
+        return QXmpp::Private::makeReadyTask(MessageEncryptResult(QXmppError { QStringLiteral("not supported"), {} }));
+    }
+    QXmppTask<MessageDecryptResult> decryptMessage(QXmppMessage &&) override
+    {
+        return QXmpp::Private::makeReadyTask(MessageDecryptResult(NotEncrypted {}));
+    }
+    QXmppTask<IqEncryptResult> encryptIq(QXmppIq &&iq, const std::optional<QXmppSendStanzaParams> &) override
+    {
+        QByteArray xml;
+        QXmlStreamWriter w(&xml);
+        iq.toXml(&w);
+        QDomDocument doc;
+        doc.setContent(QStringLiteral("<encrypted xmlns='%1'>%2</encrypted>").arg(QString::fromLatin1(NS_E2EE), QString::fromLatin1(xml.toHex())), true);
+        auto out = std::make_unique<QXmppIq>(iq.type());
+        out->setId(iq.id());
+        out->setTo(iq.to());
+        out->setFrom(iq.from());
+        out->setExtensions({ QXmppElement(doc.documentElement()) });
+        encrypted++;
+        return QXmpp::Private::makeReadyTask(IqEncryptResult(std::move(out)));
+    }
+    QXmppTask<IqDecryptResult> decryptIq(const QDomElement &) override
+    {
+        return QXmpp::Private::makeReadyTask(IqDecryptResult(NotEncrypted {}));
+    }
+    bool isEncrypted(const QDomElement &) override { return false; }
+    bool isEncrypted(const QXmppMessage &) override { return false; }
+    TestClient *c;
+    int encrypted = 0;
+};
+
 // ------------------------------------------------------------------------------------------------ client
 // named TestClient: the library declares `friend class TestClient` in QXmppClient / QXmppOutgoingClient
 class TestClient : public QXmppClient
 {
 public:
+    DummyE2ee *e2ee = nullptr;
     QStringList sent;
     int errors = 0;
     int reached = -1;  // index of the last probe extension the stanza passed
@@ -92,7 +145,26 @@ public:
         // "connected": authenticated, session started
         d->stream->d->sessionStarted = true;
         d->stream->d->isAuthenticated = true;
+        // the e2ee extension is the first extension and the client's encryption extension
+        e2ee = new DummyE2ee(this);
+        addExtension(e2ee);
+        setEncryptionExtension(e2ee);
     }
+    // put the stream into a state before session establishment: a negotiation manager is the listener
+    // (or TLS is required and the socket is not encrypted)
+    string setNegotiating(unsigned kind)
+    {
+        auto *sd = d->stream->d.get();
+        switch (kind % 6) {
+        case 0: configuration().setStreamSecurityMode(QXmppConfiguration::TLSRequired); sd->sessionStarted = false; return "tls-required";
+        case 1: sd->setListener<QXmpp::Private::StarttlsManager>(); sd->sessionStarted = false; return "starttls";
+        case 2: sd->setListener<QXmpp::Private::SaslManager>(&sd->socket); sd->sessionStarted = false; return "sasl";
+        case 3: sd->setListener<QXmpp::Private::Sasl2Manager>(&sd->socket); sd->sessionStarted = false; return "sasl2";
+        case 4: sd->setListener<QXmpp::Private::BindManager>(&sd->socket).bindAddress(QStringLiteral("home")); sd->sessionStarted = false; return "bind";
+        default: sd->listener = &sd->c2sStreamManager; sd->sessionStarted = false; return "sm-request";
+        }
+    }
+    void closeConnection() { disconnectFromServer(); }
     // really connect the client's socket to a local TCP server (plain TCP, the stream start is sent into it):
     // socket writes succeed, a stream error really closes the stream
     QTcpSocket *connectLoopback()
@@ -116,6 +188,27 @@ public:
     void recvDecrypted(const QDomElement &el) { injectIq(el, QXmppE2eeMetadata()); }
     void resetIds() { QXmppStanza::s_uniqeIdNo = 0; }
 };
+
+static QDomElement parseStanza(const QString &xml, QDomDocument &doc);
+
+bool DummyE2ee::handleStanza(const QDomElement &el, const std::optional<QXmppE2eeMetadata> &meta)
+{
+    if (meta || el.tagName() != QStringLiteral("iq")) return false;
+    auto child = el.firstChildElement();
+    if (child.tagName() != QStringLiteral("encrypted") || child.namespaceURI() != QString::fromLatin1(NS_E2EE)) return false;
+    // "decrypt": same attributes, children restored
+    QString xml = QStringLiteral("<iq");
+    auto attrs = el.attributes();
+    for (int i = 0; i < attrs.count(); i++) {
+        auto a = attrs.item(i).toAttr();
+        if (a.name().startsWith(QStringLiteral("xmlns"))) continue;
+        xml += QLatin1Char(' ') + a.name() + QStringLiteral("='") + a.value().toHtmlEscaped().replace(QLatin1Char('\''), QStringLiteral("&apos;")) + QLatin1Char('\'');
+    }
+    xml += QLatin1Char('>') + QString::fromUtf8(QByteArray::fromHex(child.text().toLatin1())) + QStringLiteral("</iq>");
+    QDomDocument doc;
+    c->recvDecrypted(parseStanza(xml, doc));
+    return true;
+}
 
 // a do-nothing extension placed before/between/after the managers: tells which manager consumed a stanza
 class Probe : public QXmppClientExtension
@@ -157,6 +250,14 @@ static vector<MgrDef> &mgrDefs()
         { "roster", "QXmppRosterManager", [](TestClient *c) { return new QXmppRosterManager(c); }, {} },
         { "rpc", "QXmppRpcManager", [](TestClient *) { return new QXmppRpcManager; }, {} },
         { "transfer", "QXmppTransferManager", [](TestClient *) { return new QXmppTransferManager; }, {} },
+        // the same class in other states (set up in build()): somebody accepts / declines offered files; an incoming
+        // in-band job from OTHER_FULL is accepted and waits for <open/>; it has been opened
+        { "transfer+accept", "QXmppTransferManager", [](TestClient *) { return new QXmppTransferManager; }, {} },
+        { "transfer+decline", "QXmppTransferManager", [](TestClient *) { return new QXmppTransferManager; }, {} },
+        { "transfer+job", "QXmppTransferManager", [](TestClient *) { return new QXmppTransferManager; }, {} },
+        { "transfer+jobopen", "QXmppTransferManager", [](TestClient *) { return new QXmppTransferManager; }, {} },
+        // a room registered under OTHER_FULL that has asked for its permission lists (needs a connected socket)
+        { "muc+room", "QXmppMucManager", [](TestClient *) { return new QXmppMucManager; }, {} },
         { "uploadRequest", "QXmppUploadRequestManager", [](TestClient *) { return new QXmppUploadRequestManager; }, {} },
         { "vcard", "QXmppVCardManager", [](TestClient *) { return new QXmppVCardManager; }, {} },
         { "version", "QXmppVersionManager", [](TestClient *) { return new QXmppVersionManager; }, {} },
@@ -177,6 +278,8 @@ static vector<MgrDef> &mgrDefs()
     };
     return v;
 }
+static string baseKey(const string &k) { auto p = k.find('+'); return p == string::npos ? k : k.substr(0, p); }
+static bool needsConnection(const string &k) { return k == "muc+room"; }
 static const MgrDef &mgrDef(const string &k)
 {
     for (auto &m : mgrDefs()) if (m.key == k) return m;
@@ -189,7 +292,7 @@ struct Payload {
     string name;          // unique
     string key;           // coarse class used in oracle keys (e.g. "vCard", "archive-chat")
     string xml;           // children of the <iq/>
-    vector<int> flags;    // one per child element (meaning: see Kid.flag in the Lean model)
+    vector<int> flags;    // one per child element: flag + 2*flag2 (meaning: see Kid in the Lean model)
     std::set<string> owners;  // managers whose handler looks at this key (to pick per-manager payload sets)
     std::map<string, string> keyBy;  // payloads claimed by several managers: oracle key per deciding manager
 };
@@ -301,37 +404,51 @@ static vector<KeyDef> keyDefs()
             { "remove", "", "<remove/>", 0 },
             { "bad", "", "<x xmlns='jabber:x:data' type='nonsense'><field/></x><query/>", 0 } } },
         { "ibb-open", "open", NS_IBB, { "transfer" }, {
-            { "full", "sid='i781hf64' block-size='4096' stanza='iq'", "", 0 },
-            { "min", "", "", 0 },
-            { "bad", "sid='' block-size='999999999999'", "<open/>", 0 } } },
+            { "full", "sid='i781hf64' block-size='4096' stanza='iq'", "", 2 },
+            { "min", "", "", 2 },
+            { "bad", "sid='' block-size='999999999999'", "<open/>", 0 },
+            { "job", "sid='jobsid' block-size='4096' stanza='iq'", "", 3 },
+            { "jobsmall", "sid='jobsid' block-size='512'", "", 3 },
+            { "jobbig", "sid='jobsid' block-size='65536'", "", 1 } } },
         { "ibb-data", "data", NS_IBB, { "transfer" }, {
-            { "full", "sid='i781hf64' seq='0'", "qANQR1DBwU4DX7jmYZnncmUQB", 0 },
-            { "min", "", "", 0 },
-            { "bad", "sid='x' seq='70000'", "****", 0 } } },
+            { "full", "sid='i781hf64' seq='0'", "qANQR1DBwU4DX7jmYZnncmUQB", 2 },
+            { "min", "", "", 2 },
+            { "bad", "sid='x' seq='7'", "****", 0 },
+            { "job", "sid='jobsid' seq='0'", "qANQR1DBwU4DX7jmYZnncmUQB", 3 },
+            { "jobseq", "sid='jobsid' seq='5'", "aGVsbG8=", 1 } } },
         { "ibb-close", "close", NS_IBB, { "transfer" }, {
             { "full", "sid='i781hf64'", "", 0 },
             { "min", "", "", 0 },
-            { "bad", "sid=''", "<close/>", 0 } } },
+            { "bad", "sid=''", "<close/>", 0 },
+            { "job", "sid='jobsid'", "", 1 } } },
         { "bytestreams", "query", NS_BS, { "transfer" }, {
-            { "full", "sid='vxf9n471bn46' mode='tcp'", "<streamhost jid='juliet@example.net/balcony' host='192.0.2.1' port='5086'/>", 0 },
+            { "full", "sid='vxf9n471bn46' mode='tcp'", "<streamhost jid='juliet@example.net/balcony' host='192.0.2.1' port='5086'/>", 1 },
             { "min", "", "", 0 },
             { "used", "sid='vxf9n471bn46'", "<streamhost-used jid='proxy.example.net'/>", 0 },
-            { "bad", "mode='carrier-pigeon'", "<streamhost port='-1'/><query/>", 0 } } },
+            { "bad", "mode='carrier-pigeon'", "<streamhost port='-1'/><query/>", 1 } } },
         { "si", "si", NS_SI, { "transfer" }, {
             { "full", "id='a0' mime-type='text/plain' profile='http://jabber.org/protocol/si/profile/file-transfer'",
               "<file xmlns='http://jabber.org/protocol/si/profile/file-transfer' name='t.txt' size='1022'/>"
               "<feature xmlns='http://jabber.org/protocol/feature-neg'><x xmlns='jabber:x:data' type='form'><field var='stream-method' type='list-single'>"
-              "<option><value>http://jabber.org/protocol/bytestreams</value></option><option><value>http://jabber.org/protocol/ibb</value></option></field></x></feature>", 0 },
+              "<option><value>http://jabber.org/protocol/bytestreams</value></option><option><value>http://jabber.org/protocol/ibb</value></option></field></x></feature>", 3 },
             { "min", "", "", 0 },
             { "nomethod", "id='a1' profile='http://jabber.org/protocol/si/profile/file-transfer'",
-              "<file xmlns='http://jabber.org/protocol/si/profile/file-transfer' name='t.txt' size='1'/>", 0 },
+              "<file xmlns='http://jabber.org/protocol/si/profile/file-transfer' name='t.txt' size='1'/>", 1 },
+            { "ibbonly", "id='a2' profile='http://jabber.org/protocol/si/profile/file-transfer'",
+              "<file xmlns='http://jabber.org/protocol/si/profile/file-transfer' name='u.txt' size='5'/>"
+              "<feature xmlns='http://jabber.org/protocol/feature-neg'><x xmlns='jabber:x:data' type='form'><field var='stream-method' type='list-single'>"
+              "<option><value>http://jabber.org/protocol/ibb</value></option></field></x></feature>", 3 },
+            { "othermethod", "id='a3' profile='http://jabber.org/protocol/si/profile/file-transfer'",
+              "<file xmlns='http://jabber.org/protocol/si/profile/file-transfer' name='u.txt' size='5'/>"
+              "<feature xmlns='http://jabber.org/protocol/feature-neg'><x xmlns='jabber:x:data' type='form'><field var='stream-method' type='list-single'>"
+              "<option><value>urn:example:carrier-pigeon</value></option></field></x></feature>", 1 },
             { "bad", "profile='urn:example:other'", "<si/><feature/>", 0 } } },
         { "muc-admin", "query", "http://jabber.org/protocol/muc#admin", { "muc" }, {
             { "full", "", "<item affiliation='member' jid='hag66@shakespeare.lit' nick='thirdwitch' role='participant'/>", 0 },
             { "min", "", "", 0 },
             { "bad", "", "<item/><item affiliation='emperor'/>", 0 } } },
         { "muc-owner", "query", "http://jabber.org/protocol/muc#owner", { "muc" }, {
-            { "full", "", FORM, 0 },
+            { "full", "", FORM, 1 },
             { "min", "", "", 0 },
             { "bad", "", "<x xmlns='jabber:x:data'/><destroy/>", 0 } } },
         // claimed by nobody in this build
@@ -407,7 +524,7 @@ static vector<Payload> buildCatalogue(bool thorough)
 
 // ------------------------------------------------------------------------------------------------ cell dimensions
 static const vector<string> TYPES = { "get", "set", "result", "error", "absent", "garbage" };
-static const vector<string> FROMS = { "none", "domain", "ownBare", "ownFull", "ownOther", "other" };
+static const vector<string> FROMS = { "none", "domain", "ownBare", "ownFull", "ownOther", "other", "stranger" };
 
 static string xmlEsc(const string &s)
 {
@@ -443,23 +560,28 @@ static string fromSpelling(const string &cls, const string &idClass, Rng &r)
     if (cls == "ownBare") return OWN_BARE;
     if (cls == "ownFull") return OWN_FULL;
     if (cls == "ownOther") { static const vector<string> g = { "me@example.org/phone", "me@example.org/home2", "me@example.org/" }; return g[r.below(g.size())]; }
-    // other: the addressee of the outstanding request when the id is the table id, else any foreign JID,
-    // including look-alikes of the own JID that only a prefix/suffix comparison would accept
-    if (idClass == "table") return OTHER_FULL;
-    static const vector<string> g = { OTHER_FULL, "juliet@example.net", "example.net", "me@example.org.evil.example/home",
+    // other: exactly the foreign JID the client has state with (addressee of the outstanding request, peer of the
+    // transfer job, JID of the joined room)
+    (void)idClass;
+    if (cls == "other") return OTHER_FULL;
+    // stranger: any other foreign JID, including the peer's other addresses and look-alikes of the own JID that only a
+    // prefix/suffix comparison would accept
+    static const vector<string> g = { "juliet@example.net", "juliet@example.net/orchard", "example.net", "me@example.org.evil.example/home",
                                       "xme@example.org/home", "room@conference.example.org/me", "me@example.net" };
     return g[r.below(g.size())];
 }
 
 struct Cell {
-    bool enc;
+    char entry;             // 's' stream, 'e' injectIq with metadata, 'x' encrypted on the stream (dummy e2ee extension)
     string type, from, id;  // classes
     const Payload *p;
+    bool negotiating = false;  // a negotiation manager is the stream's listener
 };
 
 struct Config {
     string name;             // label for statistics
     vector<string> mgrs;     // registration order
+    bool sampled = false;    // quick tier: sample the id / entry dimensions also for the managers' own payloads
 };
 
 // ------------------------------------------------------------------------------------------------ running
@@ -469,6 +591,7 @@ struct Built {
     vector<string> mgrs;
     QXmppRegistrationManager *reg = nullptr;
     QXmppBookmarkManager *bm = nullptr;
+    string mucId;  // an id in the joined room's permissionsQueue
 };
 
 static QDomElement parseStanza(const QString &xml, QDomDocument &doc)
@@ -493,23 +616,27 @@ static string attrOf(const QString &packet, const char *name, bool *present = nu
     return e.attribute(QString::fromLatin1(name)).toStdString();
 }
 
-static Built build(const vector<string> &order, bool connected = false)
+// mode: 0 = socket never connected (session flags set), 1 = really connected over loopback TCP,
+//       2 = really connected, then disconnected again before the stanza arrives
+static Built build(const vector<string> &order, int mode = 0)
 {
     Built b;
     b.c = std::make_unique<TestClient>();
     b.mgrs = order;
     TestClient *c = b.c.get();
+    bool connected = mode != 0;
     if (connected) {
         b.peer.reset(c->connectLoopback());
         if (!b.peer) { b.c.reset(); return b; }  // no loopback networking here: the caller skips the configuration
     }
+    vector<std::function<void()>> after;  // state set-up that needs the complete extension list
     // final extension list: probe0, m0, probe1, m1, ..., probe_n. Registration happens in dependency order,
     // each extension inserted at its final position.
     int n = order.size();
     vector<QXmppClientExtension *> extAt(2 * n + 1, nullptr);
     vector<bool> added(2 * n + 1, false);
     auto insertAt = [&](int pos, QXmppClientExtension *e) {
-        int idx = 0;
+        int idx = 1;  // index 0 is the e2ee extension installed by TestClient
         for (int i = 0; i < pos; i++) if (added[i]) idx++;
         c->insertExtension(idx, e);
         added[pos] = true; extAt[pos] = e;
@@ -525,6 +652,53 @@ static Built build(const vector<string> &order, bool connected = false)
         insertAt(2 * i + 1, e);
         if (order[i] == "registration") b.reg = static_cast<QXmppRegistrationManager *>(e);
         if (order[i] == "bookmark") b.bm = static_cast<QXmppBookmarkManager *>(e);
+        if (baseKey(order[i]) == "transfer" && order[i] != "transfer") {
+            auto *tm = static_cast<QXmppTransferManager *>(e);
+            const string k = order[i];
+            const bool accept = k != "transfer+decline";
+            const bool job = k == "transfer+job" || k == "transfer+jobopen";
+            if (job) tm->setSupportedMethods(QXmppTransferJob::InBandMethod);
+            QObject::connect(tm, &QXmppTransferManager::fileReceived, tm, [accept](QXmppTransferJob *j) {
+                if (accept) {
+                    auto *buf = new QBuffer(j);
+                    buf->open(QIODevice::WriteOnly);
+                    j->accept(buf);
+                } else {
+                    j->abort();
+                }
+            });
+            if (job) after.push_back([c, k]() {
+                auto expectOne = [c](const char *what, const char *type) {
+                    int n = 0;
+                    for (auto &pkt : c->sent) if (pkt.contains(QStringLiteral("<iq")) && pkt.contains(QStringLiteral("type=\"%1\"").arg(QString::fromLatin1(type)))) n++;
+                    if (n != 1) { fprintf(stderr, "harness bug: transfer job set-up (%s) did not get one %s\n", what, type); exit(3); }
+                };
+                QDomDocument d1, d2;
+                c->sent.clear();
+                c->recvStream(parseStanza(QString::fromStdString(string("<iq type='set' from='") + OTHER_FULL + "' id='offer1'>"
+                    "<si xmlns='http://jabber.org/protocol/si' id='jobsid' mime-type='text/plain' profile='http://jabber.org/protocol/si/profile/file-transfer'>"
+                    "<file xmlns='http://jabber.org/protocol/si/profile/file-transfer' name='t.txt' size='25'/>"
+                    "<feature xmlns='http://jabber.org/protocol/feature-neg'><x xmlns='jabber:x:data' type='form'><field var='stream-method' type='list-single'>"
+                    "<option><value>http://jabber.org/protocol/ibb</value></option></field></x></feature></si></iq>"), d1));
+                QCoreApplication::sendPostedEvents();
+                expectOne("offer", "result");
+                if (k == "transfer+jobopen") {
+                    c->sent.clear();
+                    c->recvStream(parseStanza(QString::fromStdString(string("<iq type='set' from='") + OTHER_FULL + "' id='open1'>"
+                        "<open xmlns='http://jabber.org/protocol/ibb' sid='jobsid' block-size='4096' stanza='iq'/></iq>"), d2));
+                    expectOne("open", "result");
+                }
+            });
+        }
+        if (order[i] == "muc+room") {
+            auto *mm = static_cast<QXmppMucManager *>(e);
+            after.push_back([c, mm, &b]() {
+                auto *room = mm->addRoom(QString::fromUtf8(OTHER_FULL));
+                c->sent.clear();
+                if (!room->requestPermissions() || c->sent.isEmpty()) { fprintf(stderr, "harness bug: requestPermissions failed (needs a connected socket)\n"); exit(3); }
+                b.mucId = attrOf(c->sent.first(), "id");
+            });
+        }
         if (order[i] == "blocking+sub") {
             auto *bm = static_cast<QXmppBlockingManager *>(e);
             c->sent.clear();
@@ -536,6 +710,13 @@ static Built build(const vector<string> &order, bool connected = false)
         }
     };
     for (int i = 0; i < n; i++) reg(i);
+    for (auto &f : after) f();
+    if (mode == 2) {
+        c->closeConnection();
+        QCoreApplication::sendPostedEvents();
+        QCoreApplication::processEvents();
+        stat("clients_disconnected_before_the_stanza");
+    }
     c->sent.clear(); c->errors = 0; c->reached = -1;
     return b;
 }
@@ -591,77 +772,124 @@ static void runCell(Built &b, const Cell &cell, Rng &rng, bool emitLine = true)
         idAttr = c->sent.isEmpty() ? "" : attrOf(c->sent.first(), "id");
         if (idAttr.empty()) { fprintf(stderr, "harness bug: no bookmark request id\n"); exit(3); }
     }
+    else if (cell.id == "muc") {
+        if (b.mucId.empty()) { fprintf(stderr, "harness bug: muc id without a joined room\n"); exit(3); }
+        idAttr = b.mucId;
+    }
     string typeAttr = typeSpelling(cell.type, rng), fromAttr = fromSpelling(cell.from, cell.id, rng);
-    string xml = "<iq";
-    if (typeAttr != NOATTR) xml += " type='" + xmlEsc(typeAttr) + "'";
-    if (fromAttr != NOATTR) xml += " from='" + xmlEsc(fromAttr) + "'";
-    if (idAttr != NOATTR) xml += " id='" + xmlEsc(idAttr) + "'";
-    if (rng.coin()) xml += string(" to='") + OWN_FULL + "'";
-    xml += ">" + cell.p->xml + "</iq>";
+    string attrs;
+    if (typeAttr != NOATTR) attrs += " type='" + xmlEsc(typeAttr) + "'";
+    if (fromAttr != NOATTR) attrs += " from='" + xmlEsc(fromAttr) + "'";
+    if (idAttr != NOATTR) attrs += " id='" + xmlEsc(idAttr) + "'";
+    if (rng.coin()) attrs += string(" to='") + OWN_FULL + "'";
+    string plainXml = "<iq" + attrs + ">" + cell.p->xml + "</iq>";
+    string xml = plainXml;
+    if (cell.entry == 'x')
+        xml = "<iq" + attrs + "><encrypted xmlns='" + NS_E2EE + "'>" + hex((const unsigned char *)cell.p->xml.data(), cell.p->xml.size()) + "</encrypted></iq>";
     string reqFrom = fromAttr == NOATTR ? "" : fromAttr, reqId = idAttr == NOATTR ? "" : idAttr;
 
-    QDomDocument doc;
+    QDomDocument doc, plainDoc;
     QDomElement stanza = parseStanza(QString::fromStdString(xml), doc);
-    // abstract children, read off the DOM the library gets
+    QDomElement plainStanza = parseStanza(QString::fromStdString(plainXml), plainDoc);
+    // abstract children, read off the DOM the library gets (for an encrypted stanza: the DOM after decryption)
     string kids;
     size_t nk = 0;
-    for (auto k = stanza.firstChildElement(); !k.isNull(); k = k.nextSiblingElement(), nk++) {
+    for (auto k = plainStanza.firstChildElement(); !k.isNull(); k = k.nextSiblingElement(), nk++) {
         string t = k.tagName().toStdString(), n = k.namespaceURI().toStdString();
         if (t.find_first_of(" |;\t") != string::npos || n.find_first_of(" |;\t") != string::npos || nk >= cell.p->flags.size()) {
             fprintf(stderr, "harness bug: payload %s child %zu not describable\n", cell.p->name.c_str(), nk); exit(3);
         }
         if (!kids.empty()) kids += ";";
-        kids += t + "|" + n + "|" + (cell.p->flags[nk] ? "1" : "0");
+        kids += t + "|" + n + "|" + std::to_string(cell.p->flags[nk]);
     }
     if (nk != cell.p->flags.size()) { fprintf(stderr, "harness bug: payload %s has %zu children, %zu flags\n", cell.p->name.c_str(), nk, cell.p->flags.size()); exit(3); }
     if (kids.empty()) kids = "-";
 
+    string negKind;
+    if (cell.negotiating) { negKind = c->setNegotiating(rng.below(6)); stat("negotiating." + negKind); }
     c->sent.clear(); c->errors = 0; c->reached = -1;
-    if (cell.enc) c->recvDecrypted(stanza); else c->recvStream(stanza);
+    if (cell.entry == 'e') c->recvDecrypted(stanza); else c->recvStream(stanza);
     QCoreApplication::sendPostedEvents();
 
     // --- observe
     int n = b.mgrs.size();
     string by;
-    if (c->reached < 0) by = "table";                       // never reached the extensions
+    if (c->reached < 0) by = cell.entry == 'e' ? "lost" : (c->errors ? "negotiation" : "table");  // never reached the extensions
     else if (c->reached < n) by = b.mgrs[c->reached];       // passed probe i, not probe i+1
     else by = c->errors ? "rejected" : "fallback";
-    if (cell.enc && c->reached < 0) by = "lost";            // injectIq always runs the extensions
-    struct R { string kind, to, id; };
+    struct R { string kind, to, id, enc; bool shapeOk; string errType, errCond; };
     vector<R> reps;
     int otherSent = 0;
     string sentDump;
+    static const QString NS_STANZAS = QStringLiteral("urn:ietf:params:xml:ns:xmpp-stanzas");
     for (auto &pkt : c->sent) {
         if (pkt == QStringLiteral("<r xmlns=\"urn:xmpp:sm:3\"/>")) continue;
         if (pkt == QStringLiteral("</stream:stream>") && c->errors) continue;  // connected mode: the stream error closes the stream
         sentDump += pkt.toStdString() + " ";
-        QDomDocument d;
+        QDomDocument d, inner;
         if (!d.setContent(pkt, true)) { otherSent++; continue; }
         auto e = d.documentElement();
         string ty = e.attribute(QStringLiteral("type")).toStdString();
         if (e.tagName() != QStringLiteral("iq") || (ty != "result" && ty != "error")) { otherSent++; continue; }
-        string to = e.attribute(QStringLiteral("to")).toStdString(), id = e.attribute(QStringLiteral("id")).toStdString();
         R r;
-        r.kind = ty;
-        r.to = to == reqFrom ? "sender" : (to.empty() ? "none" : "wrong");
+        r.enc = "plain";
+        bool wrapperOk = true;
+        auto encEl = e.firstChildElement();
+        if (encEl.tagName() == QStringLiteral("encrypted") && encEl.namespaceURI() == QString::fromLatin1(NS_E2EE)) {
+            // sent through the e2ee extension: look at what was encrypted; the wrapper must carry the same routing
+            r.enc = "enc";
+            if (!inner.setContent(QString::fromUtf8(QByteArray::fromHex(encEl.text().toLatin1())), true)) { otherSent++; continue; }
+            auto ie = inner.documentElement();
+            wrapperOk = ie.attribute(QStringLiteral("to")) == e.attribute(QStringLiteral("to")) && ie.attribute(QStringLiteral("id")) == e.attribute(QStringLiteral("id")) &&
+                ie.attribute(QStringLiteral("type")) == e.attribute(QStringLiteral("type"));
+            e = ie;
+        }
+        string to = e.attribute(QStringLiteral("to")).toStdString(), id = e.attribute(QStringLiteral("id")).toStdString();
+        string rfrom = e.attribute(QStringLiteral("from")).toStdString();
+        r.to = !wrapperOk ? "wrong" : to == reqFrom ? "sender" : (to.empty() ? "none" : "wrong");
         r.id = id == reqId ? "same" : "differs";
+        // the <error/> element: RFC 6120 8.3.2 — exactly one, with a type and exactly one defined condition
+        int nErr = 0, nCond = 0;
+        for (auto ch = e.firstChildElement(); !ch.isNull(); ch = ch.nextSiblingElement()) {
+            if (ch.tagName() != QStringLiteral("error")) continue;
+            nErr++;
+            r.errType = ch.attribute(QStringLiteral("type")).toStdString();
+            for (auto cc = ch.firstChildElement(); !cc.isNull(); cc = cc.nextSiblingElement())
+                if (cc.namespaceURI() == NS_STANZAS && cc.tagName() != QStringLiteral("text")) { nCond++; r.errCond = cc.tagName().toStdString(); }
+        }
+        static const std::set<string> errTypes = { "auth", "cancel", "continue", "modify", "wait" };
+        if (ty == "error") {
+            r.kind = "error:" + (r.errType.empty() ? string("-") : r.errType) + ":" + (r.errCond.empty() ? string("-") : r.errCond);
+            r.shapeOk = nErr == 1 && nCond == 1 && errTypes.count(r.errType);
+        } else {
+            r.kind = "result";
+            r.shapeOk = nErr == 0;
+        }
+        // a reply must not claim to come from somebody else
+        if (!rfrom.empty() && rfrom != OWN_FULL) r.shapeOk = false;
         reps.push_back(r);
     }
     string rs;
-    for (auto &r : reps) { if (!rs.empty()) rs += ","; rs += r.kind + "/" + r.to + "/" + r.id; }
+    for (auto &r : reps) { if (!rs.empty()) rs += ","; rs += r.kind + "/" + r.to + "/" + r.id + "/" + r.enc; }
     if (rs.empty()) rs = "-";
     string obs = "by=" + by + " n=" + std::to_string(reps.size()) + " r=" + rs + " disc=" + (c->errors ? "1" : "0");
     if (otherSent) obs += " x=" + std::to_string(otherSent);   // the model never predicts other traffic
-    string op = string("iq ") + (cell.enc ? "e" : "s") + " " + cell.type + " " + cell.from + " " + cell.id + " " + kids;
+    string op = string("iq ") + cell.entry + " " + (cell.negotiating ? "N" : "S") + " " + cell.type + " " + cell.from + " " + cell.id + " " + kids;
     if (emitLine) corr(op, obs);
     if (wantSample) sample(xml + "  =>  " + obs + "   [model op: " + op + "]");
     cellsRun++;
     stat("cells");
     stat("decided_by." + by);
     stat("type." + cell.type);
+    stat(string("entry.") + cell.entry);
 
     // --- oracle: the property text, evaluated on what was sent
     bool req = cell.type == "get" || cell.type == "set", resp = cell.type == "result" || cell.type == "error";
+    if (cell.negotiating) {
+        // not a connected client: the property does not apply; whatever happens, nothing may be answered
+        if (reps.empty()) { oraclePass()++; stat("oracle_before_session_silent"); return; }
+        req = false; resp = true;
+    }
     if (!req && !resp) { stat("oracle_not_applicable"); return; }
     bool ok;
     string why;
@@ -671,15 +899,24 @@ static void runCell(Built &b, const Cell &cell, Rng &rng, bool emitLine = true)
             // no `to` reaches the requester only if the requester is the account's own server
             toOk = reps[0].to == "sender" || (reps[0].to == "none" && (cell.from == "none" || cell.from == "ownBare" || cell.from == "domain"));
         }
-        ok = reps.size() == 1 && toOk && reps[0].id == "same";
-        if (!ok) why = reps.empty() ? "no reply" : reps.size() > 1 ? "several replies" : !toOk ? "reply not addressed to the sender" : "reply id differs";
+        ok = reps.size() == 1 && toOk && reps[0].id == "same" && reps[0].shapeOk;
+        if (!ok) why = reps.empty() ? "no reply" : reps.size() > 1 ? "several replies" : !toOk ? "reply not addressed to the sender" :
+            reps[0].id != "same" ? "reply id differs" : "reply malformed (error element / from)";
+        if (ok && by == "fallback") {
+            // nothing handles it: the property names the error — feature-not-implemented or service-unavailable (cancel);
+            // a request that arrived encrypted is answered encrypted
+            bool condOk = reps[0].errType == "cancel" && (reps[0].errCond == "feature-not-implemented" || reps[0].errCond == "service-unavailable");
+            bool encOk = cell.entry == 's' || reps[0].enc == "enc";
+            if (!condOk) { ok = false; why = "unhandled request answered with " + reps[0].kind; }
+            else if (!encOk) { ok = false; why = "decrypted request answered in the clear"; }
+        }
     } else {
         ok = reps.empty();
-        if (!ok) why = "a response was answered";
+        if (!ok) why = cell.negotiating ? "answered before the session was established" : "a response was answered";
     }
     if (ok) { oraclePass()++; return; }
     string child = cell.p->key;
-    auto kb = cell.p->keyBy.find(by);
+    auto kb = cell.p->keyBy.find(baseKey(by));
     if (kb != cell.p->keyBy.end()) child = kb->second;
     if (cell.id == "reg" && by == "registration") child = "pending-registration-id";
     if (cell.id == "bm" && by == "bookmark") child = "pending-bookmark-id";
@@ -688,27 +925,38 @@ static void runCell(Built &b, const Cell &cell, Rng &rng, bool emitLine = true)
     agg.count++;
     agg.froms.insert(cell.from);
     if (agg.firstReplay.empty()) agg.firstReplay = why + "; extensions=[" + [&] { string s; for (auto &m : b.mgrs) s += (s.empty() ? "" : ",") + m; return s; }() +
-        "] entry=" + (cell.enc ? "injectIq" : "stream") + " received: " + xml + " sent: " + (sentDump.empty() ? "(nothing)" : sentDump);
+        "] entry=" + (cell.entry == 'e' ? "injectIq" : cell.entry == 'x' ? "stream, encrypted" : "stream") + (cell.negotiating ? " during " + negKind : string()) +
+        " received: " + xml + " sent: " + (sentDump.empty() ? "(nothing)" : sentDump);
+}
+
+static bool owns(const std::set<string> &baseMgrs, const Payload &p)
+{
+    for (auto &o : p.owners) if (baseMgrs.count(baseKey(o))) return true;
+    return false;
 }
 
 static vector<const Payload *> payloadsFor(const vector<Payload> &cat, const Config &cfg, bool full)
 {
     vector<const Payload *> v;
-    std::set<string> ms(cfg.mgrs.begin(), cfg.mgrs.end());
+    std::set<string> ms;
+    for (auto &m : cfg.mgrs) ms.insert(baseKey(m));
+    // a manager alone in a non-initial state ("transfer+job", "muc+room", ...): its own payloads and a few others;
+    // the foreign payloads were already run against the same class in its initial state
+    bool variantAlone = cfg.mgrs.size() == 1 && cfg.mgrs[0].find('+') != string::npos;
     for (auto &p : cat) {
-        bool own = false;
-        for (auto &o : p.owners) if (ms.count(o)) own = true;
-        bool foreignSample = p.name.size() > 4 && p.name.substr(p.name.size() - 4) == ".min";
-        if (full || own || p.owners.empty() || foreignSample) v.push_back(&p);
+        bool foreignSample = !variantAlone && p.name.size() > 4 && p.name.substr(p.name.size() - 4) == ".min";
+        bool basic = p.owners.empty() && (!variantAlone || p.name == "none" || p.name == "unknown" || p.name == "error-only");
+        if (full || owns(ms, p) || basic || foreignSample) v.push_back(&p);
     }
     return v;
 }
 
-static void runConfig(const Config &cfg, const vector<Payload> &cat, bool fullCatalogue, bool thorough, Rng &rng, int freshEvery, bool connected = false)
+// mode: see build()
+static void runConfig(const Config &cfg, const vector<Payload> &cat, bool fullCatalogue, bool thorough, Rng &rng, int freshEvery, int mode = 0)
 {
     string l;
-    for (auto &m : cfg.mgrs) l += (l.empty() ? "" : ",") + m;
-    if (connected && !build(cfg.mgrs, true).c) {
+    for (auto &m : cfg.mgrs) { l += (l.empty() ? "" : ",") + m; if (needsConnection(m) && mode == 0) mode = 1; }
+    if (mode != 0 && !build(cfg.mgrs, mode).c) {
         // environment without loopback TCP: the really-connected runs are skipped and said so in the evidence
         stat("configs_skipped_no_loopback");
         return;
@@ -716,41 +964,60 @@ static void runConfig(const Config &cfg, const vector<Payload> &cat, bool fullCa
     printf("I config %s [%s]\n", cfg.name.c_str(), l.c_str());
     fflush(stdout);
     corr("reset " + (l.empty() ? string("-") : l), "ok");
-    bool hasReg = std::find(cfg.mgrs.begin(), cfg.mgrs.end(), "registration") != cfg.mgrs.end();
-    bool hasBm = connected && std::find(cfg.mgrs.begin(), cfg.mgrs.end(), "bookmark") != cfg.mgrs.end();
+    auto has = [&](const char *k) { return std::find(cfg.mgrs.begin(), cfg.mgrs.end(), k) != cfg.mgrs.end(); };
+    bool hasReg = has("registration");
+    bool hasBm = mode == 1 && has("bookmark");
+    bool hasRoom = has("muc+room");
     auto pls = payloadsFor(cat, cfg, fullCatalogue);
-    Built b = build(cfg.mgrs, connected);
+    Built b = build(cfg.mgrs, mode);
     int sinceFresh = 0;
-    std::set<string> ms(cfg.mgrs.begin(), cfg.mgrs.end());
+    // quick tier, whole catalogue: the id and entry dimensions are sampled
+    const bool variantAlone = cfg.mgrs.size() == 1 && cfg.mgrs[0].find('+') != string::npos;
+    const bool sparse = !thorough && (fullCatalogue || cfg.sampled);
+    for (auto &m : cfg.mgrs) if (m.find("+job") != string::npos) freshEvery = 1;  // a job changes with every accepted block
+    std::set<string> ms;
+    for (auto &m : cfg.mgrs) ms.insert(baseKey(m));
+    static const std::set<string> idProbes = { "unknown", "none", "vCard.min" };
     for (auto *p : pls) {
-        bool own = false;
-        for (auto &o : p->owners) if (ms.count(o)) own = true;
+        bool own = owns(ms, *p);
         for (auto &type : TYPES) {
             for (auto &from : FROMS) {
                 vector<string> ids = { "fresh" };
                 // own payloads get the full id dimension; others a seeded choice in the quick tier
-                if (own || thorough || rng.below(4) == 0) ids.push_back("absent");
-                if (type == "result" || type == "error" || own || thorough) {
-                    if (from == "none" || from == "other" || thorough || rng.below(4) == 0) ids.push_back("table");
+                // structural shapes (.after, .prefixed, ...) of a manager in a non-initial state are sampled as well
+                static const std::set<string> shapes = { "after", "before", "wrongns", "wrongtag", "prefixed", "witherror", "errorfirst", "textfirst" };
+                const bool shape = shapes.count(p->name.substr(p->name.rfind('.') == string::npos ? 0 : p->name.rfind('.') + 1)) > 0;
+                const bool dense = thorough || ((own || p->owners.empty()) && !sparse && !(variantAlone && shape));
+                if (dense || rng.below(4) == 0) ids.push_back("absent");
+                // (after a disconnect a new request fails at once, there is no outstanding id)
+                if (mode != 2 && (type == "result" || type == "error" || dense)) {
+                    if (thorough || ((from == "none" || from == "other") && !sparse) || rng.below(4) == 0) ids.push_back("table");
                 }
-                if (hasReg && (p->name == "unknown" || p->name == "vCard.min" || p->name == "register.min" || p->name == "none")) ids.push_back("reg");
-                if (hasBm && (p->name == "unknown" || p->name == "vCard.min" || p->name == "private-bookmarks.min" || p->name == "none")) ids.push_back("bm");
+                if (hasReg && (idProbes.count(p->name) || p->name == "register.min")) ids.push_back("reg");
+                if (hasBm && (idProbes.count(p->name) || p->name == "private-bookmarks.min")) ids.push_back("bm");
+                if (hasRoom && (idProbes.count(p->name) || p->key == "muc-admin" || p->key == "muc-owner")) ids.push_back("muc");
+                // a few payloads are also sent while the stream is still negotiating
+                bool negProbe = p->name == "none" || p->name == "unknown" || p->name == "version.min" || p->name == "roster.min" || p->name == "vCard.full";
                 for (auto &id : ids) {
-                    for (int enc = 0; enc < 2; enc++) {
-                        if (enc && !(own || thorough || p->owners.empty()) && rng.below(3)) continue;
-                        bool stateful = id == "table" || id == "reg" || id == "bm";
-                        if (stateful || sinceFresh >= freshEvery) { b = Built(); b = build(cfg.mgrs, connected); sinceFresh = 0; }
-                        Cell cell { enc == 1, type, from, id, p };
-                        runCell(b, cell, rng);
-                        sinceFresh++;
-                        if (stateful) { b = Built(); b = build(cfg.mgrs, connected); sinceFresh = 0; }
+                    for (char entry : { 's', 'e', 'x' }) {
+                        if (entry != 's' && !dense && rng.below(3)) continue;
+                        for (int neg = 0; neg < 2; neg++) {
+                            if (neg && (!negProbe || entry == 'e' || (id != "fresh" && id != "table") || mode == 2)) continue;
+                            bool stateful = neg || id == "table" || id == "reg" || id == "bm" || id == "muc";
+                            if (stateful || sinceFresh >= freshEvery) { b = Built(); b = build(cfg.mgrs, mode); sinceFresh = 0; }
+                            Cell cell { entry, type, from, id, p, neg == 1 };
+                            runCell(b, cell, rng);
+                            sinceFresh++;
+                            if (stateful) { b = Built(); b = build(cfg.mgrs, mode); sinceFresh = 0; }
+                        }
                     }
                 }
             }
         }
     }
     stat("configs");
-    if (connected) stat("configs_really_connected");
+    if (mode == 1) stat("configs_really_connected");
+    if (mode == 2) stat("configs_after_disconnect");
 }
 
 int main(int argc, char **argv)
@@ -767,7 +1034,7 @@ int main(int argc, char **argv)
     stat("payloads", (long long)cat.size());
 
     vector<string> allKeys;
-    for (auto &m : mgrDefs()) if (m.key != "blocking+sub") allKeys.push_back(m.key);
+    for (auto &m : mgrDefs()) if (m.key.find('+') == string::npos) allKeys.push_back(m.key);
 
     // corpus first: the 37 witness cells that violated the property before repo commits 28afc7a (vCard), 318b7cf
     // (roster), 1833c1a (transfer), 29beb7d (archive), 88fc5c1 (bookmark), daa6e10 (MAM), 7916dee (upload request),
@@ -803,15 +1070,15 @@ int main(int argc, char **argv)
             { { "uploadRequest" }, { "get", "set" }, "upload-slot.full", "fresh", false },
         };
         for (auto &w : ws) {
-            if (w.connected && !build(w.mgrs, true).c) { stat("configs_skipped_no_loopback"); continue; }
+            if (w.connected && !build(w.mgrs, 1).c) { stat("configs_skipped_no_loopback"); continue; }
             string l;
             for (auto &m : w.mgrs) l += (l.empty() ? "" : ",") + m;
             corr("reset " + l, "ok");
             const Payload *p = pl(w.payload);
             for (auto &t : w.types) for (auto &f : FROMS) {
-                Built b = build(w.mgrs, w.connected);
-                wantSample = (f == "other" || f == "ownOther") && samplesLeft() > 1;
-                Cell cell { false, t, f, w.id, p };
+                Built b = build(w.mgrs, w.connected ? 1 : 0);
+                wantSample = (f == "stranger" || f == "ownOther") && samplesLeft() > 1;
+                Cell cell { 's', t, f, w.id, p };
                 runCell(b, cell, rng);
                 wantSample = false;
                 stat("corpus_cells");
@@ -833,21 +1100,29 @@ int main(int argc, char **argv)
     runConfig({ "default", { "roster", "vcard", "version", "entityTime", "discovery" } }, cat, true, thorough, rng, freshEvery);
     // the same over a really connected socket (loopback TCP): replies are written to the socket, a stream error closes
     // the stream; also the only way to give the bookmark manager an outstanding request id
-    runConfig({ "default-connected", { "roster", "vcard", "version", "entityTime", "discovery" } }, cat, thorough, thorough, rng, 1, true);
-    runConfig({ "bookmark-connected", { "bookmark", "vcard" } }, cat, false, thorough, rng, 1, true);
-    runConfig({ "bookmark-connected2", { "vcard", "registration", "bookmark" } }, cat, false, thorough, rng, 1, true);
+    runConfig({ "default-connected", { "roster", "vcard", "version", "entityTime", "discovery" } }, cat, thorough, thorough, rng, 1, 1);
+    runConfig({ "bookmark-connected", { "bookmark", "vcard" } }, cat, false, thorough, rng, 1, 1);
+    runConfig({ "bookmark-connected2", { "vcard", "registration", "bookmark" } }, cat, false, thorough, rng, 1, 1);
+    // a room waiting for its permission lists next to the managers that share `query` payloads with it
+    runConfig({ "room-connected", { "discovery", "muc+room", "version" }, true }, cat, false, thorough, rng, 1, 1);
+    // connected, then disconnected again before the stanza is processed (the code does not look at the connection state)
+    runConfig({ "default-after-disconnect", { "roster", "vcard", "version", "entityTime", "discovery" }, true }, cat, false, thorough, rng, 1, 2);
+    // stateful transfer manager next to managers that compete for its payloads
+    runConfig({ "transfer-job-mixed", { "rpc", "transfer+jobopen", "roster" }, true }, cat, false, thorough, rng, 1);
     // everything together, in several registration orders
-    int nperm = thorough ? 6 : 2;
+    int nperm = thorough ? 6 : 2;  // registration orders: as listed, reversed, then seeded shuffles
     for (int i = 0; i <= nperm; i++) {
         vector<string> order = allKeys;
         if (i == 1) std::reverse(order.begin(), order.end());
         if (i >= 2) for (size_t j = order.size(); j > 1; j--) std::swap(order[j - 1], order[rng.below(j)]);
-        // one of the two blocking variants
+        // other states of the stateful managers
         if (i % 2) for (auto &k : order) if (k == "blocking") k = "blocking+sub";
+        if (i % 3 == 1) for (auto &k : order) if (k == "transfer") k = "transfer+jobopen";
+        if (i % 3 == 2) for (auto &k : order) if (k == "transfer") k = "transfer+accept";
         runConfig({ "all#" + std::to_string(i), order }, cat, true, thorough, rng, thorough ? 1 : 50);
     }
     // random small sets in random order
-    int nrand = thorough ? 60 : 12;
+    int nrand = thorough ? 60 : 8;
     for (int i = 0; i < nrand; i++) {
         vector<string> pool = allKeys, order;
         int k = 2 + rng.below(5);
@@ -856,7 +1131,7 @@ int main(int argc, char **argv)
         for (size_t j = 0; j < order.size(); j++)
             for (auto &need : mgrDef(order[j]).needs)
                 if (std::find(order.begin(), order.end(), need) == order.end()) order.push_back(need);
-        runConfig({ "random#" + std::to_string(i), order }, cat, false, thorough, rng, 1);
+        runConfig({ "random#" + std::to_string(i), order, true }, cat, false, thorough, rng, 1);
     }
 
     // oracle failures, one line per (deciding manager, type, child class, from); `any` when every sender class fails
@@ -870,7 +1145,7 @@ int main(int argc, char **argv)
         else for (auto &f : agg.froms) oracleFail("C08:" + by + ":" + type + ":" + child + ":" + f, rep);
     }
     // samples for the evidence
-    sample("cell = entry(s|e) x type x from x id x children(tag|ns|flag); e.g. `iq s get other fresh vCard|vcard-temp|0`");
+    sample("cell = entry(s|e|x) x phase(S|N) x type x from x id x children(tag|ns|flags); e.g. `iq s S get other fresh vCard|vcard-temp|0`");
     stat("managers", (long long)mgrDefs().size());
     finish();
     return 0;
